@@ -1,5 +1,5 @@
 """Shared machinery: builds, PRNG, transcript parsing, comparison, evidence, verdicts."""
-import fcntl, hashlib, json, os, re, subprocess, sys, time, shutil, tempfile
+import collections, fcntl, hashlib, json, os, re, subprocess, sys, time, shutil, tempfile
 
 VERIF = os.path.dirname(os.path.dirname(os.path.abspath(__file__)))
 REPO = os.environ.get("VERIF_REPO", "/repo")
@@ -316,8 +316,58 @@ def parse_results(lines):
         kind, idx, kv = parse_kv(l)
         if kind == "fs":
             kv = dict(t.split("=", 1) for t in l.split(" ")[2:] if "=" in t)
+        elif "writes" in kv:
+            # a file written with the bytes it already held is no modification: it is kept apart ("touched") for the
+            # properties that say "no write at all" (C04, C10); everywhere else only content changes count
+            ws = [w for w in kv["writes"].split(",") if w not in ("-", "")]
+            kv["writes"] = ",".join(w for w in ws if not w.startswith("touch:")) or "-"
+            kv["touched"] = ",".join(w.split(":", 1)[1] for w in ws if w.startswith("touch:")) or "-"
         res.append((kind, idx, kv))
     return res
+
+
+def failed(outcome):
+    """the property-level reading of an outcome: the call reported a failure (which kind of failure, and how the
+    message is worded, is presentation)"""
+    return outcome.startswith("failed")
+
+
+def kind_may_be(outcome, kind):
+    """the failure is of this kind as far as the harness can tell (an unrecognised wording is not evidence against)"""
+    return outcome_agrees(outcome, "failed:" + kind)
+
+
+def outcome_agrees(impl, model):
+    """outcome classes must agree; the KIND of a failure is compared only when the harness could classify the
+    implementation's message (a reworded message reads as failed:other... and agrees with any failure kind)"""
+    ci, cm = impl.split(":", 1)[0], model.split(":", 1)[0]
+    if ci != cm:
+        return False
+    if ci != "failed":
+        return impl == model
+    ki, km = impl.split(":")[1] if ":" in impl else "", model.split(":")[1] if ":" in model else ""
+    return ki == km or ki.startswith("other") or ki in ("unknown", "")
+
+
+def outcomes_agree(got, want):
+    """a sched line's outcomes (<g>:<o1>/<o2>;...): per goroutine, per call the same outcome class; failure kinds compared
+    only where the harness recognised the message"""
+    g, w = got.split(";"), want.split(";")
+    if len(g) != len(w):
+        return False
+    for a, b in zip(g, w):
+        ga, _, la = a.partition(":")
+        gb, _, lb = b.partition(":")
+        xa, xb = la.split("/"), lb.split("/")
+        if ga != gb or len(xa) != len(xb) or not all(outcome_agrees(x, y) for x, y in zip(xa, xb)):
+            return False
+    return True
+
+
+# presentation drift: observables no property (and no theorem statement) speaks about - footer line numbers, the bytes of
+# the summary beyond what the verified reader reads, failure kinds. Differences are counted and reported in the evidence,
+# never raised as a violation.
+DRIFT = collections.Counter()
 
 
 def parse_ops(lines):
@@ -362,15 +412,34 @@ def compare(impl, model, fields_by_kind):
                 mism.append("%s %s differs at %s" % (kind, a[1], ",".join(x[:80] for x in d[:4])))
             continue
         for f in fields:
+            soft = f.startswith("~")
+            f = f.lstrip("~")
             va, vb = a[2].get(f), b[2].get(f)
             if f == "writes":
                 va, vb = norm_writes(va or "-"), norm_writes(vb or "-")
+            if f == "touched":
+                va, vb = va or "-", vb or "-"
             if f == "line" and a[2].get("outcome") != "failed:diff":
                 continue  # the line is observable only in a diff report footer
             if vb == "*":
                 continue  # the model does not speak about this field
+            if f == "outcomes" and va is not None and vb is not None and va != vb and outcomes_agree(va, vb):
+                DRIFT["failure kind not recognised"] += 1
+                continue
+            if f == "prev" and va and vb and "@" in va and "@" in vb and va.split("@")[0] == vb.split("@")[0] and va != vb:
+                DRIFT["frame.prev line number"] += 1     # getPrevSnapshot's line number feeds only the report's footer
+                continue
+            if f == "outcome" and va is not None and vb is not None:
+                if not outcome_agrees(va, vb):
+                    mism.append("%s %s field outcome: impl=%s model=%s" % (kind, a[1], str(va)[:200], str(vb)[:200]))
+                elif va != vb:
+                    DRIFT["failure kind not recognised"] += 1
+                continue
             if va != vb:
-                mism.append("%s %s field %s: impl=%s model=%s" % (kind, a[1], f, str(va)[:200], str(vb)[:200]))
+                if soft:
+                    DRIFT["%s.%s" % (kind, f)] += 1
+                else:
+                    mism.append("%s %s field %s: impl=%s model=%s" % (kind, a[1], f, str(va)[:200], str(vb)[:200]))
         # the payload of a JSON call recomputed by the model itself (document, matchers, options) must agree with the one the
         # harness resolved with the library's matcher and rendering code - whatever fields the property compares
         if kind == "obs" and a[2].get("jpre") == "1" and b[2].get("jpre") == "0":
